@@ -139,6 +139,16 @@ const BF_OPTIONS: &[&str] = &[
     "script,important", "doc", "document",
 ];
 
+// pattern cube: near-twin patterns (same hostname and a different remainder, same remainder and a
+// different hostname, same text with a different anchor) under three option sets; a badfilter must
+// cancel its exact twin only
+const BF2_PATTERNS: &[&str] = &[
+    "||ads.net/ads", "||ads.net/bar", "||ads.net^foo", "||ads.net^bar", "||ads.net*ads", "||ads.net*bar", "||a.ads.net/ads", "||example.com/ads",
+    "||ads.net^", "||ads.net/", "ads.net/ads", "|https://ads.net/ads", "||ads.net/ads|", "/ads", "/bar", "/ads|", "|https://ads.net/bar",
+    "@@||ads.net/ads", "@@||ads.net/bar", "@@||ads.net^foo", "@@/ads", "||ads.net/ads^", "||ads.net/foo/bar", "||ads.net/foo*bar", "||ads.net/ads*bar",
+];
+const BF2_OPTIONS: &[&str] = &["", "script", "domain=example.com"];
+
 /// Alias normalisation, written from the option documentation (not from /repo).
 fn normalise(opts: &str) -> BTreeSet<String> {
     let mut out = BTreeSet::new();
@@ -311,6 +321,12 @@ fn check(ctx: &Ctx) -> i32 {
             l.samples.push(json!({"y": spell(y.0, y.1, false), "z": spell(z.0, z.1, true), "requests": bf_reqs.len()}));
         }
         check_badfilter_pair(y, z, &bf_reqs, l);
+    });
+    let bf2: Vec<(&'static str, &'static str)> = BF2_PATTERNS.iter().flat_map(|p| BF2_OPTIONS.iter().map(move |o| (*p, *o))).collect();
+    ctx.bound("badfilter_pattern_cube_spellings", bf2.len());
+    let m2 = bf2.len() as u64;
+    ctx.par_range("badfilter pattern cube", m2 * m2, 16, |i, l| {
+        check_badfilter_pair(bf2[(i / m2) as usize], bf2[(i % m2) as usize], &bf_reqs, l);
     });
     // a $badfilter rule alone never matches anything
     ctx.par_range("badfilter alone", m, 4, |i, l| {
